@@ -1,6 +1,6 @@
 CONSTANTS
     Mode = "all"
-    EffSrcLocs = {"", "l2"}
+    EffSrcLocs = {"", "l1", "l2", "l3"}
 INIT Init
 NEXT Next
 INVARIANT MountOrderFree
